@@ -32,6 +32,14 @@ EXTRA_ASSIGNMENTS = [
                  'a9003 OCTET STRING, b9004 INTEGER OPTIONAL }'],
     ['Blob9005', 'Blob9005 ::= OCTET STRING'],
     ['Blob9006', 'Blob9006 ::= [31] EXPLICIT UTF8String'],
+    # Absent OPTIONAL members with long tags in front of a short last
+    # member: the tag comparison window reaches the end of the message.
+    ['Tail9007', 'Tail9007 ::= SEQUENCE { x9008 [5] IMPLICIT INTEGER OPTIONAL, '
+                 'y9009 [70000] IMPLICIT INTEGER OPTIONAL, '
+                 'w9010 [268435455] IMPLICIT OCTET STRING OPTIONAL, '
+                 'z9011 [2] IMPLICIT BOOLEAN }'],
+    ['Tail9012', 'Tail9012 ::= SET { p9013 [APPLICATION 16384] IMPLICIT '
+                 'UTF8String OPTIONAL, q9014 [3] IMPLICIT NULL }'],
 ]
 
 
@@ -117,6 +125,36 @@ class C15(Engine):
                 'segmentation': {'seed': schedule.getrandbits(32)},
                 'seed': run_seed}
 
+    def check_rejected_alone(self, spec, type_name, message, jvalue, alone,
+                             case, result):
+        rng = random.Random(mix(case.get('seed', 0), 'tails-rejected',
+                                message.hex()[:64]))
+        tails = [b'\x00', b'\x00\x00', b'\xff' * 3, message, message[:1],
+                 bytes(rng.randrange(256)
+                       for _ in range(rng.choice([1, 2, 5, 30])))]
+
+        for tail in tails:
+            data = message + tail
+            outcome, ticks = steps.call(
+                lambda: spec.decode_with_length(type_name, data),
+                world.decode_budget(len(data)))
+            result.ticks += ticks
+            result.evaluations += 1
+            result.stats['rejected-alone-tail-probes'] += 1
+
+            if outcome[0] == 'ok':
+                result.violation(
+                    'wrong-value', {'codec': case['codec']},
+                    {'type': type_name, 'message': message.hex()[:120],
+                     'tail': tail.hex()[:60],
+                     'decode_alone': canon_outcome(alone)[:200],
+                     'decode_with_length': canon_outcome(outcome)[:200],
+                     'note': 'decoding the message alone raises, decoding '
+                             'it followed by other bytes returns a value'},
+                    dict(case, messages=[[type_name, jvalue]]))
+
+                return
+
     def execute(self, case):
         result = Result()
         codec = case['codec']
@@ -152,6 +190,12 @@ class C15(Engine):
 
             if outcome[0] != 'ok':
                 result.stats['skipped-roundtrip'] += 1
+                # The decoder rejects the encoder's own output (a C01
+                # matter) - but then it must reject it whatever follows:
+                # an answer that depends on the trailing bytes is a framing
+                # disagreement.
+                self.check_rejected_alone(spec, type_name, encoded, jvalue,
+                                          outcome, case, result)
                 continue
 
             sent.append((type_name, encoded, canon(outcome[1]), jvalue))
